@@ -1,6 +1,7 @@
 package cache
 
 import (
+	"strings"
 	"crypto/tls"
 	"net/http"
 	"net/url"
@@ -311,4 +312,37 @@ func HarnessKeyEncodedPairs() {
 	} else {
 		vAssert(ka != kb, "c02.different-paths-share-entry")
 	}
+}
+
+// HarnessKeyLongComponents: components longer than any small length field (255, 256, 257, 260,
+// 513 bytes).  Moving the tail of a long path into the query (or the tail of a long host into the
+// path) never yields the key of the original request, and a long component still tells its
+// neighbours apart.
+func HarnessKeyLongComponents() {
+	ns := []int{250, 255, 256, 257, 260, 513}
+	n := ns[symChoice(len(ns))]
+	long := strings.Repeat("x", n)
+	key := func(method, host, path, query string) string {
+		r := &http.Request{Method: method, Host: host, URL: &url.URL{Path: path, RawQuery: query}}
+		MakeFromRequest(r)
+		return vLastHashInput()
+	}
+	vReach("compared")
+	// path / query boundary
+	a := key("GET", "h", "/api/"+long, "")
+	b := key("GET", "h", "/api", "/"+long)
+	vAssert(a != b, "c02.different-paths-share-entry")
+	c := key("GET", "h", "/api/"+long, "q")
+	d := key("GET", "h", "/api/"+long+"q", "")
+	vAssert(c != d, "c02.different-paths-share-entry")
+	// host / path boundary
+	e := key("GET", "h"+long, "/p", "")
+	f := key("GET", "h", long+"/p", "")
+	vAssert(e != f, "c02.different-hosts-share-entry")
+	// method / host boundary
+	g := key("GET"+long, "h", "/p", "")
+	h := key("GET", long+"h", "/p", "")
+	vAssert(g != h, "c02.different-hosts-share-entry")
+	// and the same long request twice is the same key
+	vAssert(a == key("GET", "h", "/api/"+long, ""), "c02.same-path-not-shared")
 }
